@@ -7,6 +7,12 @@ use std::sync::OnceLock;
 pub trait SimRuntime: Sync + Send {
     /// A cooperative scheduling point.  The runtime may switch to another thread.
     fn yield_point(&self, site: u32);
+    /// A scheduling point in front of an access to `addr` (an object for the per-object metadata
+    /// sites, the accessed byte or word for the raw sites).  Only called when
+    /// [`site::CLASS_RACE`] is enabled; lets the runtime steer two threads into the same location.
+    fn yield_point_at(&self, site: u32, _addr: usize) {
+        self.yield_point(site)
+    }
     /// The calling thread is spinning: it cannot make progress until another thread has stepped.
     fn spin_hint(&self, site: u32);
     /// `try_lock` on `lock` failed: block the caller until `lock` has been released.
@@ -71,6 +77,10 @@ pub mod site {
     pub const CLASS_POOL: u32 = 1 << 5;
     pub const CLASS_ALLOC: u32 = 1 << 6;
     pub const CLASS_BINDING: u32 = 1 << 7;
+    /// Race-directed scheduling: sites report the address they are about to access, and the
+    /// sites of this class itself (inside non-atomic read-modify-writes and the `Address` atomics)
+    /// fire.
+    pub const CLASS_RACE: u32 = 1 << 8;
 
     pub const fn mk(class: u32, idx: u32) -> u32 {
         (class << 16) | idx
@@ -107,6 +117,11 @@ pub mod site {
     pub const RAW_CAS: u32 = mk(CLASS_META_RAW, 3);
     pub const RAW_FETCH: u32 = mk(CLASS_META_RAW, 4);
     pub const RAW_BULK_EDGE: u32 = mk(CLASS_META_RAW, 5);
+
+    pub const RACE_RMW: u32 = mk(CLASS_RACE, 1);
+    pub const RACE_ADDR_LOAD: u32 = mk(CLASS_RACE, 2);
+    pub const RACE_ADDR_STORE: u32 = mk(CLASS_RACE, 3);
+    pub const RACE_ADDR_CAS: u32 = mk(CLASS_RACE, 4);
 
     pub const SPIN_FORWARDING: u32 = mk(CLASS_SPIN, 1);
     pub const SPIN_STEAL_RETRY: u32 = mk(CLASS_SPIN, 2);
@@ -168,6 +183,23 @@ pub fn yield_point(site: u32) {
     if SITE_MASK.load(Ordering::Relaxed) & site::class_of(site) != 0 {
         if let Some(rt) = RUNTIME.get() {
             rt.yield_point(site);
+        }
+    }
+}
+
+/// Like [`yield_point`], but tells the runtime which address is about to be accessed when
+/// race-directed scheduling ([`site::CLASS_RACE`]) is enabled.  Identical to [`yield_point`]
+/// otherwise.
+#[inline(always)]
+pub fn yield_point_at(site: u32, addr: usize) {
+    let mask = SITE_MASK.load(Ordering::Relaxed);
+    if mask & site::class_of(site) != 0 {
+        if let Some(rt) = RUNTIME.get() {
+            if mask & site::CLASS_RACE != 0 {
+                rt.yield_point_at(site, addr);
+            } else {
+                rt.yield_point(site);
+            }
         }
     }
 }
